@@ -8,7 +8,7 @@ EXTENDS Spawn, Json
 Modes == {"inherit", "null", "pipe", "raw"}
 IoAll == {<<a, b, c>> : a \in Modes, b \in Modes, c \in Modes}
 Base  == [nargs |-> 1, nenv |-> 1, cwd |-> "none", uid |-> "unset", gid |-> "unset", pg |-> "unset",
-          io |-> <<"inherit", "inherit", "inherit">>, pre |-> << >>, prog |-> "ok", wseq |-> <<"wait">>]
+          io |-> <<"inherit", "inherit", "inherit">>, pre |-> << >>, prog |-> "ok", wseq |-> <<"wait">>, respawn |-> "none"]
 PreAll   == {<< >>, <<0>>, <<0, 0>>, <<13>>, <<0, 13>>, <<-1>>}
 PreQuick == {<< >>, <<0, 13>>, <<-1>>}
 \* <<uid, gid>> settings: own ids, a foreign user, a foreign group, both (setgid then fails: EPERM)
@@ -19,17 +19,17 @@ IdPairsFull  == IdPairsQuick \cup {<<"own", "unset">>, <<"other", "own">>}
 CfgsIo == {[Base EXCEPT !.io = x] : x \in IoAll}
 \* ... and on a command that uses every other setting
 Rich == [nargs |-> 2, nenv |-> 2, cwd |-> "ok", uid |-> "other", gid |-> "unset", pg |-> "own",
-         io |-> <<"inherit", "inherit", "inherit">>, pre |-> <<0>>, prog |-> "ok", wseq |-> <<"wait">>]
+         io |-> <<"inherit", "inherit", "inherit">>, pre |-> <<0>>, prog |-> "ok", wseq |-> <<"wait">>, respawn |-> "none"]
 CfgsIoRich == {[Rich EXCEPT !.io = x] : x \in IoAll}
 \* the other dimensions, with one mixed stdio table
 CfgsDimsQuick ==
     {[nargs |-> a, nenv |-> n, cwd |-> w, uid |-> u[1], gid |-> u[2], pg |-> g, io |-> <<"null", "pipe", "raw">>,
-      pre |-> p, prog |-> b, wseq |-> <<"wait">>] :
+      pre |-> p, prog |-> b, wseq |-> <<"wait">>, respawn |-> "none"] :
         a \in {0, 2}, n \in {0, 2}, w \in {"none", "ok", "missing"}, u \in IdPairsQuick,
         g \in {"unset", "own"}, p \in PreQuick, b \in {"ok", "missing"}}
 CfgsDimsFull ==
     {[nargs |-> a, nenv |-> n, cwd |-> w, uid |-> u[1], gid |-> u[2], pg |-> g, io |-> t, pre |-> p, prog |-> b,
-      wseq |-> <<"wait">>] :
+      wseq |-> <<"wait">>, respawn |-> "none"] :
         a \in {0, 2}, n \in 0..2, w \in {"none", "ok", "missing"}, u \in IdPairsFull, g \in {"unset", "own"},
         t \in {<<"null", "pipe", "raw">>, <<"inherit", "inherit", "inherit">>}, p \in PreAll, b \in {"ok", "missing"}}
 \* what the caller does with the returned Child: every sequence of 1..3 calls over wait / try_wait /
@@ -39,14 +39,22 @@ WaitOps  == {"wait", "poll", "try"}
 WaitSeqs == UNION {[1..n -> WaitOps] : n \in 1..3}
 WBase    == [Base EXCEPT !.nenv = 0]
 CfgsWait == {[b EXCEPT !.wseq = w] : b \in {WBase, [WBase EXCEPT !.io = <<"pipe", "inherit", "inherit">>]}, w \in WaitSeqs}
-CfgsQuick    == CfgsIo \cup CfgsIoRich \cup CfgsDimsQuick \cup CfgsWait
-CfgsThorough == CfgsIo \cup CfgsIoRich \cup CfgsDimsFull \cup CfgsWait
+\* the same Command spawned twice (respawn = "same"), or with one more Command::arg in between ("arg")
+ReuseBases == {WBase,
+               [Base EXCEPT !.nargs = 2, !.nenv = 2, !.cwd = "ok", !.pg = "own", !.io = <<"null", "pipe", "inherit">>, !.pre = <<0>>],
+               [Base EXCEPT !.nargs = 0, !.pre = <<0, 0>>, !.io = <<"pipe", "null", "pipe">>],
+               [Base EXCEPT !.prog = "missing"], [Base EXCEPT !.cwd = "missing", !.nenv = 2]}
+CfgsReuse == {[b EXCEPT !.respawn = r] : b \in ReuseBases, r \in {"same", "arg"}}
+CfgsQuick    == CfgsIo \cup CfgsIoRich \cup CfgsDimsQuick \cup CfgsWait \cup CfgsReuse
+CfgsThorough == CfgsIo \cup CfgsIoRich \cup CfgsDimsFull \cup CfgsWait \cup CfgsReuse
 CfgsTiny     == {Base, [Base EXCEPT !.io = <<"null", "pipe", "raw">>, !.cwd = "ok", !.uid = "own", !.gid = "own",
                                !.pg = "own", !.pre = <<0>>, !.nargs = 2, !.nenv = 2],
                  [Base EXCEPT !.cwd = "missing"], [Base EXCEPT !.pre = <<0, 13>>], [Base EXCEPT !.pre = <<-1>>],
                  [Base EXCEPT !.prog = "missing"], [Base EXCEPT !.uid = "other", !.gid = "other"],
                  [Base EXCEPT !.uid = "other"], [Base EXCEPT !.gid = "other"],
                  [Base EXCEPT !.io = <<"pipe", "inherit", "inherit">>],
+                 [WBase EXCEPT !.respawn = "arg"], [Base EXCEPT !.nargs = 2, !.nenv = 2, !.respawn = "same"],
+                 [Base EXCEPT !.prog = "missing", !.respawn = "arg"],
                  [WBase EXCEPT !.wseq = <<"poll", "wait">>], [WBase EXCEPT !.wseq = <<"wait", "try">>],
                  [WBase EXCEPT !.io = <<"pipe", "inherit", "inherit">>, !.wseq = <<"try", "poll", "try">>]}
 
@@ -81,7 +89,7 @@ Applicable(c, f) ==
 InitMC == Init /\ Applicable(cfg, fault)
 SpecMC == InitMC /\ [][Next]_vars_all
 
-Plan == [cfg |-> cfg, fault |-> fault, fired |-> fired, start |-> StartFeature,
+Plan == [cfg |-> cfg, fault |-> fault, fired |-> fired, start |-> StartFeature, round |-> round,
          hist |-> hist, returns |-> returns, execd |-> execd, image |-> image, cstatus |-> cstatus,
          waits |-> waits, reaped |-> reaped, failed |-> F, viol |-> AbsViolated]
 Emit == (Terminal /\ (fault = NoFault \/ fired)) => PrintT(<<"PLAN", ToJson(Plan)>>)
